@@ -78,8 +78,36 @@ class Concretizer:
             s = base
             while s in self.name_map.values():
                 s = s + "_"
+            s = self.respect_externals(term, v, s)
         self.name_map[key] = s
         return s
+
+    NAME_POOL = ["\u00b5", "\ufb01", "\uff41", "\u017f", "\u00aa", "\u212a", "\u2167", "A", "Zz", "\u00df", "\u0130", "a1", "_x"]
+
+    def respect_externals(self, term, v, default):
+        """Names are free to choose: pick one on which the real standard-library functions
+        behave the way the counter-model says the uninterpreted ones do (moved / not moved)."""
+        ext = self.I.ghost.get("weak_externals", {})
+        if not ext:
+            return default
+        import importlib
+        want = []
+        for tag, (f, real) in ext.items():
+            moved = str(self.m.eval(f(term), model_completion=True)) != str(v)
+            try:
+                fn = getattr(importlib.import_module(real[0]), real[1])
+            except Exception:
+                continue
+            want.append((lambda c, fn=fn, pre=real[2]: fn(*pre, c), moved))
+        for cand in [default] + self.NAME_POOL:
+            if cand in self.name_map.values():
+                continue
+            try:
+                if all((fn(cand) != cand) == moved for fn, moved in want):
+                    return cand
+            except Exception:
+                continue
+        return default
 
     def point(self):
         out = {}
